@@ -766,8 +766,7 @@ class FileReport:  # pylint: disable=too-many-instance-attributes
                     if not identifiers.intersection(
                         project.license_map
                     ) and not any(
-                        _LICENSEREF_PATTERN.match(item) and "Unknown" not in item
-                        for item in identifiers
+                        _LICENSEREF_PATTERN.match(item) for item in identifiers
                     ):
                         report.bad_licenses.add(identifier)
                     # Missing license
